@@ -430,3 +430,25 @@ func indexAny(s, chars string) int {
 	}
 	return -1
 }
+
+// ExtNamesLenient returns the extension names of Sec-WebSocket-Extensions
+// lines under a tolerant reading: elements are separated by commas outside
+// quoted-strings (with backslash escapes), and the name is the leading token
+// of an element.  Text inside a quoted-string is never an extension name,
+// whatever else is wrong with the line.
+func ExtNamesLenient(lines []string) []string {
+	var names []string
+	for _, line := range lines {
+		for _, el := range splitOutsideQuotes(line, ',') {
+			el = trimOWS(el)
+			i := 0
+			for i < len(el) && isTchar(el[i]) {
+				i++
+			}
+			if i > 0 {
+				names = append(names, el[:i])
+			}
+		}
+	}
+	return names
+}
